@@ -8,7 +8,8 @@
                          deterministic scenarios the model is RUN with the recorded environment
                          choices and its journal / results / completions / logs compared.
                          Result: "ok" or "FAIL:<name>,<name>..." ("det:<what>" = model run differs)
-        f3               the late-Assign witness run on the model: "hang" when stuckb. *)
+        f3               regression scenario (batchMessages after Close) run on the model:
+                         "<close returned|hang>:<result of the call>". *)
 open Writer_model
 open Writer_io
 
@@ -251,7 +252,9 @@ let op_e2e (words : string list) : string =
              | CEntered ->
                if not (do_step (Assign (nat_of_int c))) then fail "Assign-disabled";
                let fuel = ref 100000 in
-               while !dfail = None && not (do_step (Return (nat_of_int c))) do
+               (* batchMessages after Close returns io.ErrClosedPipe: the call is over *)
+               let over () = match (List.nth !s.s_calls c).c_ph with CReturned _ -> true | _ -> false in
+               while !dfail = None && not (over ()) && not (do_step (Return (nat_of_int c))) do
                  decr fuel;
                  if !fuel <= 0 || not (move ~timers:sync_timers ~skip_ret:true) then fail "model-call-cannot-return"
                done
@@ -302,7 +305,8 @@ let op_e2e (words : string list) : string =
     end;
     if !bad = [] then "ok" else "FAIL:" ^ String.concat "," (List.rev !bad)
 
-(* the late-Assign witness (F3) on the model *)
+(* regression scenario of the former defect F3 on the model: a call passes enter(), Close
+   marks the writer closed, then the call's batchMessages runs.  Result "<close>:<call>". *)
 let op_f3 (cfgw : string) : string =
   let (cfg, _) = parse_cfg cfgw in
   let m = { m_id = n_of_int 1; m_topic = (match cfg.wtopic with None -> Some N0 | Some _ -> None);
@@ -312,7 +316,6 @@ let op_f3 (cfgw : string) : string =
   if not (do_step (Call (n_of_int 1, [m], None))) then "BADWITNESS:Call"
   else if not (do_step CloseMark) then "BADWITNESS:CloseMark"
   else begin
-    (* the late batchMessages, then everything any goroutine can still do *)
     let _ = do_step (Assign O) in
     let fuel = ref 10000 in
     let rec drain () =
@@ -320,9 +323,9 @@ let op_f3 (cfgw : string) : string =
       if !fuel > 0 && List.exists (fun l -> match l with Assign _ -> false | _ -> do_step l) (progress_labels !s)
       then drain () in
     drain ();
-    if stuckb cfg !s then "hang"
-    else if !s.s_close = ClReturned then "returned"
-    else "undecided"
+    let cl = if stuckb cfg !s then "hang" else if !s.s_close = ClReturned then "returned" else "undecided" in
+    let a = match (List.nth !s.s_calls 0).c_ph with CReturned r -> string_of_result r | _ -> "hang" in
+    cl ^ ":" ^ a
   end
 
 let eval (op : string) (a : string list) : string =
